@@ -16,10 +16,10 @@ CONSTANTS MaxLen,       \* maximal number of elements of a vector / dictionary
 PrimDom(p) ==
   CASE p = "uint32"  -> {Z4, <<1, 0, 0, 0>>, <<255, 255, 255, 255>>}
     [] p = "int32"   -> {Z4, <<1, 0, 0, 0>>, <<255, 255, 255, 255>>, <<0, 0, 0, 128>>}
-    [] p = "float32" -> {Z4, <<0, 0, 128, 63>>, <<0, 0, 192, 127>>, <<0, 0, 128, 255>>, <<1, 0, 0, 0>>}
+    [] p = "float32" -> {Z4, <<0, 0, 128, 63>>, <<0, 0, 192, 127>>, <<0, 0, 128, 255>>, <<1, 0, 0, 0>>, <<0, 0, 0, 128>>}
     [] p = "int64"   -> {Z8, <<1, 0, 0, 0, 0, 0, 0, 0>>, <<255, 255, 255, 255, 255, 255, 255, 255>>, <<0, 0, 0, 0, 0, 0, 0, 128>>}
     [] p = "uint64"  -> {Z8, <<1, 0, 0, 0, 0, 0, 0, 0>>, <<255, 255, 255, 255, 255, 255, 255, 255>>}
-    [] p = "float64" -> {Z8, <<0, 0, 0, 0, 0, 0, 240, 63>>, <<1, 0, 0, 0, 0, 0, 248, 127>>, <<0, 0, 0, 0, 0, 0, 240, 127>>, <<1, 0, 0, 0, 0, 0, 0, 0>>}
+    [] p = "float64" -> {Z8, <<0, 0, 0, 0, 0, 0, 240, 63>>, <<1, 0, 0, 0, 0, 0, 248, 127>>, <<0, 0, 0, 0, 0, 0, 240, 127>>, <<1, 0, 0, 0, 0, 0, 0, 0>>, <<0, 0, 0, 0, 0, 0, 0, 128>>}
     [] p = "byte"    -> {<<0>>, <<1>>, <<255>>}
     [] p = "string"  -> {<<>>, <<97>>, <<97, 98, 99, 100>>, <<255, 0>>, <<226, 130, 172, 34, 92, 10>>} \cup LongStrings
     [] OTHER         -> BOOLEAN
@@ -31,6 +31,17 @@ KeyDom(kt) ==
     [] kt \in {"int64", "uint64"} -> <<Z8, <<1, 0, 0, 0, 0, 0, 0, 0>>, <<2, 0, 0, 0, 0, 0, 0, 0>>, <<0, 1, 0, 0, 0, 0, 0, 0>>>>
     [] kt = "byte" -> <<<<0>>, <<1>>, <<2>>, <<200>>>>
     [] OTHER -> <<>>
+
+(* does the value hold a negative zero float anywhere *)
+RECURSIVE HasNegZero(_, _)
+HasNegZero(tn, v) ==
+  LET t == TY(tn) IN
+  CASE t.k = "prim" -> (t.prim = "float32" /\ v = <<0, 0, 0, 128>>) \/ (t.prim = "float64" /\ v = <<0, 0, 0, 0, 0, 0, 0, 128>>)
+    [] t.k = "struct" -> \E i \in 1..Len(t.fields) :
+                           IF IsOpt(t.fields[i]) THEN IsP(v[i]) /\ ~t.fields[i].isbit /\ HasNegZero(t.fields[i].t, PV(v[i]))
+                           ELSE HasNegZero(t.fields[i].t, v[i])
+    [] t.k = "union" -> HasNegZero(t.variants[v.i], v.v)
+    [] t.k \in {"array", "dict"} -> \E j \in 1..Len(v) : HasNegZero(t.elem.t, v[j])
 
 RECURSIVE Mods(_, _, _)
 EntryMods(t, env, v, i) ==
